@@ -18,12 +18,23 @@ def builds_needed(tier):
     return ["rel"]
 
 
+# Own corpus re-run on other builds of the crate (mc/core.py: extra builds). Every observation is compared with the same model.
+def _vec(fname, arg):
+    v = arg if isinstance(arg, str) else (arg[0] if isinstance(arg, (tuple, list)) else "")
+    return fname in ("shard_b2dyn", "shard_b2bits") or str(v).startswith(("sha224", "sha256", "blake2"))
+
+
+def extra_builds(tier):
+    return [("relchk", None), ("sse41", _vec), ("avx", _vec), ("avx2", _vec)]
+
+
+
 def bounds(tier):
     return {"fixed_variant_lengths": "0..=8B+1" if tier == "thorough" else "0..=4B+1",
             "patterns": 6 if tier == "thorough" else 2,
             "blake2_outlen_x_keylen": "all (1..=64 x 0..=64, 1..=32 x 0..=32)",
             "input_alignments": "byte offsets 1..=7 (quick) / 1..=63 (thorough) on boundary lengths",
-            "long_lengths": "kB-1,kB,kB+1 for k in {8,64,512,1024}; 65536, 65537, 131072" if tier == "thorough" else "kB-1,kB,kB+1 for k in {8,64,512}; 65536"}
+            "long_lengths": ("kB-1,kB,kB+1,kB+B/2+3 for every k in 5..=33; " + ("kB-1,kB,kB+1 for k in {64,512,1024}; 65536, 65537, 131072" if tier == "thorough" else "kB-1,kB,kB+1 for k in {64,512}; 65536"))}
 
 
 def validate_models(tier):
@@ -129,6 +140,9 @@ def shard_long(variant, tier):
     kind, oneshot, B, D = CTX[variant]
     ks = (8, 64, 512, 1024) if tier == "thorough" else (8, 64, 512)
     lens = [k * B + d for k in ks for d in (-1, 0, 1)] + ([65536, 65537, 131072] if tier == "thorough" else [65536])
+    # every number of whole blocks 5..=33 in one call with tails -1/0/+1 (and a mid-block tail): every batch size of a multi-block
+    # compression loop together with every remainder size
+    lens += [k * B + d for k in range(5, 34) if k != 8 for d in (-1, 0, 1, B // 2 + 3)]
     if tier == "thorough" and variant in ("sha1", "sha256", "sha512", "sha3_256", "keccak512", "ripemd160", "blake2b_512", "blake2s_256"):
         lens += [1 << 20, (1 << 20) + 1]
     cases = []
